@@ -448,7 +448,8 @@ const prelude = `
         (not (and (<= 55296 (rat s p)) (<= (rat s p) 57343)))
         (=> (< (sat s p) 128) (and (= (rat s p) (sat s p)) (= (rwidth s p) 1)))
         (=> (>= (sat s p) 128) (>= (rat s p) 128))
-        (=> (> (rwidth s p) 1) (and (>= (rat s p) 128) (>= (sat s p) 192)))
+        (=> (> (rwidth s p) 1) (and (>= (rat s p) 128) (>= (sat s p) 192)
+             (forall ((j Int)) (! (=> (and (< p j) (< j (+ p (rwidth s p)))) (>= (sat s j) 128)) :pattern ((select (sbytes s) j))))))
         (= (rwidth s p) (ite (= (rat s p) 65533) (rwidth s p) (ite (< (rat s p) 128) 1 (ite (< (rat s p) 2048) 2 (ite (< (rat s p) 65536) 3 4)))))
         ))
    :pattern ((rwidth s p)) :pattern ((rat s p)))))
